@@ -513,43 +513,89 @@ def coverage(ctx, drv, conc):
             ctx.hist("os_calls", evk)
 
 
-def run_histories(ctx, name, exe, drv, gens, judge_factory=Judge, sample=0, timeout=3000, wf=False):
-    """wf: the driver additionally evaluates the well-formedness predicate WF of Props/C03.lean on every state
-    (a failure shows as a model-error line, i.e. as a disagreement)"""
-    lines = ["wf 1" if wf else "wf 0"]
-    for g in gens:
-        lines += g.lines if hasattr(g, "lines") else g
-    outs = record(exe, lines, timeout=timeout)
-    if len(outs) != len(lines):
-        idx = len(outs)
-        ctx.violation({"stream": name, "kind": "impl-crash"},
-                      {"stream": name, "case_index": idx, "history_prefix": lines[max(0, idx - 400):idx + 1],
-                       "note": "the harness died while recording this history (signal / abort) at the last line shown"})
-        return None
-    conc = concretise(lines, outs)
-    # the property's oracle on the implementation, history by history: a failure is recorded with the whole
-    # history up to the failing operation (an operation line alone cannot be replayed)
-    rc, outs2, _ = C.run_filter([exe], conc, timeout=timeout)
-    if len(outs2) == len(conc):
+def _run_chunks(cmd, chunks, timeout):
+    """run a line filter over several independent chunks in parallel; returns the list of output-line lists"""
+    from concurrent.futures import ThreadPoolExecutor
+    with ThreadPoolExecutor(max_workers=min(12, max(1, len(chunks)))) as ex:
+        futs = [ex.submit(C.run_filter, cmd, ch, timeout) for ch in chunks]
+        return [f.result() for f in futs]
+
+
+def run_histories(ctx, name, exe, drv, gens, judge_factory=Judge, sample=0, timeout=3000, wf=False, dump="full"):
+    """Two passes over independent histories, in parallel chunks: (1) record the OS answers on the real code,
+    (2) run the real code and the Lean model on the concretised lines; judge the implementation's answers with the
+    property's oracle and compare them line by line with the model's (the protocol of common.correspond, with the
+    whole history kept as replay for a failing operation).
+    wf: the driver additionally evaluates the well-formedness predicate WF of Props/C03.lean on every state."""
+    hists = [(g.lines if hasattr(g, "lines") else g) for g in gens]
+    nchunks = min(12, len(hists)) or 1
+    pre = ["wf 1" if wf else "wf 0", "dump " + dump]
+    chunks = [list(pre) for _ in range(nchunks)]
+    sizes = [0] * nchunks
+    for h in sorted(hists, key=len, reverse=True):
+        k = sizes.index(min(sizes))
+        chunks[k] += h
+        sizes[k] += len(h)
+    st = ctx.extra.setdefault("streams", {})
+    st[name] = {"cases": 0, "disagreements": 0, "spec_failures": 0}
+    rec = _run_chunks([exe], chunks, timeout)
+    concs = []
+    for ch, (rc, outs, err) in zip(chunks, rec):
+        if len(outs) != len(ch):
+            idx = len(outs)
+            ctx.violation({"stream": name, "kind": "impl-crash"},
+                          {"stream": name, "case_index": idx, "history_tail": ch[max(0, idx - 400):idx + 1], "stderr": err[-400:],
+                           "note": "the harness died (signal / abort) while recording; the last line shown is the operation that killed it"})
+            return None
+        concs.append(concretise(ch, outs))
+    impl = _run_chunks([exe], concs, timeout)
+    model = _run_chunks([drv], concs, timeout)
+    all_conc = []
+    first_disagreement = None
+    for conc, (rc_i, outs_i, err_i), (rc_m, outs_m, err_m) in zip(concs, impl, model):
+        all_conc += conc
+        ctx.evaluations += len(conc)
+        st[name]["cases"] += len(conc)
+        if len(outs_i) != len(conc):
+            idx = len(outs_i)
+            ctx.violation({"stream": name, "kind": "impl-crash"},
+                          {"stream": name, "case_index": idx, "history_tail": conc[max(0, idx - 400):idx + 1], "stderr": err_i[-400:]})
+            return None
+        if len(outs_m) != len(conc):
+            ctx.broken.append({"driver_failed": name, "rc": rc_m, "stderr": err_m.splitlines()[-5:]})
+            ctx.violation({"stream": name, "kind": "driver-failed"}, {"stream": name, "driver_rc": rc_m, "stderr": err_m.splitlines()[-5:]},
+                          no_input=True)
+            return None
         j0 = judge_factory()
-        start = 0
-        failed_here = False
-        for i, (c_, o_) in enumerate(zip(conc, outs2)):
+        start, failed_here = 0, False
+        for i, (c_, a, b) in enumerate(zip(conc, outs_i, outs_m)):
             if c_ == "reset":
                 start, failed_here = i, False
-            why = j0(c_, o_)
-            if why and not failed_here:
-                failed_here = True
-                hist = conc[start:i + 1]
-                ctx.violation(sig_of(c_, o_, why),
-                              {"stream": name, "why": why, "history": hist, "failing_operation": c_, "implementation": o_[:2000],
-                               "how_to_replay": "feed the lines of `history` (one per line) to " + exe})
-    j = judge_factory()
-    C.correspond(ctx, name, conc, [exe], [drv], j, sig_of, timeout=timeout)
-    if sample:
-        for c_, o_ in list(zip(conc, outs2))[2:2 + sample]:
-            ctx.sample({"case": c_, "implementation": o_[:400]})
-    return conc
+            why = j0(c_, a)
+            if why:
+                st[name]["spec_failures"] += 1
+                if not failed_here:
+                    failed_here = True
+                    ctx.violation(sig_of(c_, a, why),
+                                  {"stream": name, "why": why, "history": conc[:2] + conc[start:i + 1], "failing_operation": c_,
+                                   "implementation": a[:2000], "model": b[:2000],
+                                   "how_to_replay": "feed the lines of `history` (one per line) to " + exe})
+            if a != b:
+                st[name]["disagreements"] += 1
+                if first_disagreement is None:
+                    first_disagreement = {"history": conc[:2] + conc[start:i + 1], "case": c_, "implementation": a[:3000], "model": b[:3000]}
+        if sample:
+            for c_, o_ in list(zip(conc, outs_i))[3:3 + sample]:
+                ctx.sample({"case": c_, "implementation": o_[:400]})
+            sample = 0
+    if first_disagreement is not None and st[name]["spec_failures"] == 0:
+        ctx.broken.append({"correspondence": name, "first_disagreement": {k: first_disagreement[k] for k in ("case", "implementation", "model")},
+                           "count": st[name]["disagreements"]})
+        ctx.violation({"stream": name, "kind": "model-disagreement"},
+                      {"broken_correspondence": name, "first_disagreement": first_disagreement, "count": st[name]["disagreements"],
+                       "note": "implementation output satisfies the spec oracle on every explored case; the model no longer describes the code"},
+                      no_input=True)
+    return all_conc
 
 
 def malformed(ctx):
@@ -646,7 +692,7 @@ def run(ctx):
                 g.free_all()
         g.free_all()
         gens.append(g)
-    conc = run_histories(ctx, "histories", exe, drv, gens, sample=6, wf=quick)
+    conc = run_histories(ctx, "histories", exe, drv, gens, sample=6, wf=quick, dump="full" if quick else "hash")
     if not quick:       # WF on every state of a tenth of the long histories (the checker is quadratic)
         run_histories(ctx, "histories-wf", exe, drv, gens[:6] + gens[6::10], wf=True)
     if conc is not None:
